@@ -33,7 +33,14 @@ func c12Simp(alg string, a int, keep int) orb.Simplifier {
 			c12DP.Threshold = t
 			return c12DP
 		case "radial":
-			c12Rad.Threshold = t
+			// the distance function is the caller's: plain distances against t, or squared distances against the squared
+			// threshold - then on the same figure eight times smaller (an exact scaling), where coordinate differences
+			// and squared distances below one are of different magnitude
+			if c12N%4 == 0 {
+				c12Rad.DistanceFunc, c12Rad.Threshold = planar.DistanceSquared, (t/8)*(t/8)
+				return scaledSimp{c12Rad, 8}
+			}
+			c12Rad.DistanceFunc, c12Rad.Threshold = planar.Distance, t
 			return c12Rad
 		case "vis":
 			c12Vis.Threshold, c12Vis.ToKeep = t, keep
@@ -51,6 +58,9 @@ func c12Simp(alg string, a int, keep int) orb.Simplifier {
 		s = simplify.DouglasPeucker(t)
 	case "radial":
 		s = simplify.Radial(planar.Distance, t)
+		if a%2 == 1 {
+			s = scaledSimp{simplify.Radial(planar.DistanceSquared, (t/8)*(t/8)), 8}
+		}
 	case "vis":
 		s = simplify.Visvalingam(t, keep)
 	case "viskeep":
@@ -61,6 +71,42 @@ func c12Simp(alg string, a int, keep int) orb.Simplifier {
 }
 
 var c12Prev prevTracker
+
+// scaledSimp hands the inner simplifier the geometry f times smaller and scales the result back (exact for powers of
+// two): the abstract result does not change, the magnitudes the code sees do.
+type scaledSimp struct {
+	inner orb.Simplifier
+	f     float64
+}
+
+func (s scaledSimp) down(g orb.Geometry) orb.Geometry {
+	return mapGeom(g, func(p orb.Point) orb.Point { return orb.Point{p[0] / s.f, p[1] / s.f} })
+}
+func (s scaledSimp) up(g orb.Geometry) orb.Geometry {
+	if g == nil {
+		return nil
+	}
+	return mapGeom(g, func(p orb.Point) orb.Point { return orb.Point{p[0] * s.f, p[1] * s.f} })
+}
+func (s scaledSimp) Simplify(g orb.Geometry) orb.Geometry { return s.up(s.inner.Simplify(s.down(g))) }
+func (s scaledSimp) LineString(g orb.LineString) orb.LineString {
+	return s.up(s.inner.LineString(s.down(g).(orb.LineString))).(orb.LineString)
+}
+func (s scaledSimp) MultiLineString(g orb.MultiLineString) orb.MultiLineString {
+	return s.up(s.inner.MultiLineString(s.down(g).(orb.MultiLineString))).(orb.MultiLineString)
+}
+func (s scaledSimp) Ring(g orb.Ring) orb.Ring {
+	return s.up(s.inner.Ring(s.down(g).(orb.Ring))).(orb.Ring)
+}
+func (s scaledSimp) Polygon(g orb.Polygon) orb.Polygon {
+	return s.up(s.inner.Polygon(s.down(g).(orb.Polygon))).(orb.Polygon)
+}
+func (s scaledSimp) MultiPolygon(g orb.MultiPolygon) orb.MultiPolygon {
+	return s.up(s.inner.MultiPolygon(s.down(g).(orb.MultiPolygon))).(orb.MultiPolygon)
+}
+func (s scaledSimp) Collection(g orb.Collection) orb.Collection {
+	return s.up(s.inner.Collection(s.down(g).(orb.Collection))).(orb.Collection)
+}
 
 func c12Apply(s orb.Simplifier, kind string, generic bool, ls orb.LineString) orb.LineString {
 	in := ls.Clone()
